@@ -31,6 +31,18 @@ func runC04(c *Ctx) {
 	c.Rule("O4.4", "discard only when enabled and late: the engine reports the discarded sample only under discard_overflow && IsSlowDown; with discard_overflow off, or when not slow, the token is fired")
 	c.Rule("O4.5", "discarded sample shape: net code 777 and tag 'discarded'")
 	c.Rule("O4.6", "discard_overflow defaults to on: the CLI inserts discard_overflow=true only when the key is absent, under the key InstancePoolConfig.DiscardOverflow is decoded from")
+	c.Rule("O4.7", "token times are computed from a start time that was set: the schedules read their start / finish time only after their own start (the rule of O2.11, shared) - a drained or empty part that reports the zero time as its finish puts every later token in the past, and every later request is fired at once")
+	if sp4 := c.P.SSAPkg("core/schedule"); sp4 != nil {
+		var fns4 []*ssa.Function
+		for _, f := range PkgFuncs(sp4) {
+			if IsProdFile(c.P.File(f.Pos())) {
+				fns4 = append(fns4, f)
+			}
+		}
+		c02ReadAfterStart(c, "O4.7", fns4)
+	} else {
+		c.Anchor("O4.7", "package core/schedule")
+	}
 	P := c.P
 	wait := P.Func("core/coreutil", "Waiter", "Wait")
 	slow := P.Func("core/coreutil", "Waiter", "IsSlowDown")
